@@ -6,6 +6,7 @@ mod addrbook;
 mod guard;
 mod derive;
 mod connid;
+mod keepalive;
 mod notify;
 mod proto;
 
@@ -16,6 +17,7 @@ fn main() {
         "dialplan" => dialplan::main(&a),
         "cdial" => cdial::main(&a),
         "notify" => notify::main(&a),
+        "keepalive" => keepalive::main(&a),
         "connid" => connid::main(&a),
         "derive" => derive::main(&a),
         "guard" => guard::main(&a),
